@@ -84,3 +84,43 @@ Definition line_after (v11 : bool) (prefix : str) : N :=
   1 + count_lf (if v11 then eol_norm11 prefix else eol_norm prefix).
 Definition col_after (v11 : bool) (prefix : str) : N :=
   1 + since_lf 0 (if v11 then eol_norm11 prefix else eol_norm prefix).
+
+(* ---- XML 1.1 section 2.11 as the recommendation words it: first the two-character sequences #xD #xA and
+        #xD #x85 become #xA, then every remaining #xD, #x85 and #x2028 becomes #xA *)
+Fixpoint pair11_to_lf (s : str) : str :=
+  match s with
+  | c :: r =>
+      match r with
+      | d :: r' => if (c =? 13) && ((d =? 10) || (d =? 0x85)) then 10 :: pair11_to_lf r' else c :: pair11_to_lf r
+      | [] => [c]
+      end
+  | [] => []
+  end.
+Definition is_eol11_single (c : N) : bool := (c =? 13) || ((c =? 0x85) || (c =? 0x2028)).
+Definition eol11_spec (s : str) : str := map (fun c => if is_eol11_single c then 10 else c) (pair11_to_lf s).
+(* the reader of an XML 1.1 entity: the XML (text) declaration is read in XML 1.0 mode (fNEL is switched on by
+   setXMLVersion after the declaration has been scanned), the rest in XML 1.1 mode *)
+Definition eol_doc11 (decl rest : str) : str := eol_norm decl ++ eol_norm11 rest.
+Definition no_nel (s : str) : bool := forallb (fun c => negb ((c =? 0x85) || (c =? 0x2028))) s.
+
+(* ---- the attribute list of a start tag with DTD defaulting (IGXMLScanner::scanStartTag / buildAttList,
+        DGXMLScanner::buildAttList): first the attributes written in the tag, each with specified = true, then - in
+        declaration order - every declared attribute with a default (#FIXED or plain) that was not written, with its
+        default value and specified = false.  The XMLAttr objects come from a pool that is reused from element to
+        element and from parse to parse; the flag is set on every (re)use. *)
+Definition att := (str * str)%type.
+Definition has_name (n : str) (l : list att) : bool := existsb (fun a => str_eqb n (fst a)) l.
+Definition att_list (literal defaults : list att) : list (att * bool) :=
+  map (fun a => (a, true)) literal ++
+  map (fun d => (d, false)) (filter (fun d => negb (has_name (fst d) literal)) defaults).
+
+(* ---- the position the Locator / an error reports (ReaderMgr::getLastExtEntityInfo -> getLastExtEntity): the
+        reader stack from the top, each entry (external?, text consumed so far); the position is the one of the
+        nearest enclosing EXTERNAL entity (the bottom entry is the document entity) *)
+Fixpoint last_ext (stk : list (bool * str)) : str :=
+  match stk with
+  | [] => []
+  | (ext, consumed) :: r => if ext then consumed else match r with [] => consumed | _ => last_ext r end
+  end.
+Definition locator (v11 : bool) (stk : list (bool * str)) : N * N :=
+  (line_after v11 (last_ext stk), col_after v11 (last_ext stk)).
